@@ -472,6 +472,10 @@ func (s *AbsfsNFS) WriteWithContext(ctx context.Context, node *NFSNode, offset i
 
 	n, err := f.WriteAt(data, offset)
 	if err == nil {
+		// The reply says FILE_SYNC, so the data must be on stable storage first
+		err = f.Sync()
+	}
+	if err == nil {
 		// Invalidate cache after successful write
 		s.attrCache.Invalidate(node.path)
 
